@@ -101,19 +101,22 @@ def regular_branches(M):
     return branches(M1, limit=4), len(fixed)
 
 
-def check_pairs(w, rep, tier, only=None, RP="C07.preserve", RA="C07.API"):
+def check_pairs(w, rep, tier, only=None, RP="C07.preserve", RA="C07.API", extra_sources=None):
     """only: restrict to a set of (source, destination) pairs; RP / RA: rule ids to report under (other properties reuse
     single pairs of this rule for the conversions their own clauses are routed through)."""
     reps = {nm: w.G(nm) for nm in SO3_REPS}
-    for src, Gs in reps.items():
+    sources = dict(reps)
+    if extra_sources:
+        sources = dict(extra_sources)
+    for src, Gs in sources.items():
         X, xp = w.fresh(Gs, "X")
         quats = quats_of(w, Gs, xp)
         okm, M = guarded(w, rep, RA, "%s.to_Matrix" % src, lambda: w.call(X, "to_Matrix"))
         for dst, Gd in reps.items():
             if src == dst or (only is not None and (src, dst) not in only):
                 continue
-            meth = "from_" + SUFFIX[src]
-            inst = "%s.%s" % (dst, meth)
+            meth = "from_" + SUFFIX.get(src, "Euler")
+            inst = "%s.%s" % (dst, meth) + ("" if src in SUFFIX else " [%s]" % src)
             W = w.method_where(Gd, meth)[:2]
             ok, Y = guarded(w, rep, RA, inst, lambda: w.call(Gd, meth, X))
             if not ok:
@@ -145,13 +148,32 @@ def check_pairs(w, rep, tier, only=None, RP="C07.preserve", RA="C07.API"):
                     label = "%s keeps the rotation matrix [branch %s]" % (inst, desc[:80])
                     if v == DIFFERENT:
                         rep.fail(RP, label, "to_Matrix(%s(X)) differs from to_Matrix(X): %s" % (inst, d), where=W, fact={"difference": d})
-                    elif (src, dst) in DECIDED:
+                    elif (src if src in SUFFIX else "SO3EulerB321", dst) in DECIDED:
                         rep.incomplete(RP, label, "cannot decide: %s" % d, where=W)
                     else:
                         rep.na(RP, label, "not decided: %s" % d)
                 if alleq:
                     rep.ok(RP, "%s keeps the rotation matrix (all %d selector branches; regular Euler band, principal MRP)" % (inst, len(bs)),
                            fact={"branches": len(bs), "fixed_conditions": nfixed})
+
+
+SPACE_FIXED = "space-fixed xyz Euler group"
+
+
+def space_fixed_group(w):
+    """An Euler group of the other type the class supports (space-fixed, sequence x-y-z), built by running the class's
+    constructor abstractly: conversions FROM such a group must keep its rotation matrix too."""
+    m = w.mod("cyecca.lie.group_so3")
+    for need in ("SO3EulerLieGroup", "EulerType", "Axis"):
+        if need not in m:
+            raise AnchorMissing("cyecca.lie.group_so3.%s" % need)
+    return w.callf(m["SO3EulerLieGroup"], euler_type=w.attr(m["EulerType"], "space_fixed"), sequence=[w.attr(m["Axis"], a) for a in "xyz"])
+
+
+def check_space_fixed(w, rep, tier, RP="C07.preserve", RA="C07.API", dsts=("SO3Dcm", "SO3Quat")):
+    ok, G = guarded(w, rep, RA, "SO3EulerLieGroup(space_fixed, [x, y, z])", lambda: space_fixed_group(w))
+    if ok:
+        check_pairs(w, rep, tier, only={(SPACE_FIXED, d) for d in dsts}, RP=RP, RA=RA, extra_sources={SPACE_FIXED: G})
 
 
 def check_from_matrix(w, rep, R="C07.from-matrix", RV="C07.valid", RS="C07.shepperd"):
@@ -422,6 +444,20 @@ def check_euler_band(w, rep, p, RULE, W, label="SO3EulerB321.from_Matrix"):
         rep.incomplete(RULE, inst, "%d selection(s) of from_Matrix are not recognised as a gimbal test (forms: |theta -+ pi/2| < w, +-s > k, |s -+ 1| < w)" % (n_sel - len(bands)), where=W)
     else:
         rep.fail(RULE, inst, "gimbal handling is not symmetric: pole tests for %s only" % (signs or "no pole"), where=W, fact={"poles": signs})
+    # regular branch: yaw and roll range over the whole circle, so each must come from the two-argument arctangent (or
+    # carry its own quadrant selection); a bare atan(y/x) returns them modulo pi
+    reg = assign_ites(p, {c: False for c in conds})
+    if reg.r == 3:
+        for idx, nm in ((0, "yaw"), (2, "roll")):
+            kinds = {a.kind for a in all_atoms(reg.cells[idx][0])}
+            inst2 = "%s regular branch recovers %s over the full circle (two-argument arctangent)" % (label, nm)
+            if "atan" in kinds and not ({"atan2", "ite", "sign"} & kinds):
+                rep.fail(RULE, inst2, "%s is atan(y/x) of matrix entries: its range is (-pi/2, pi/2), so a %s beyond a quarter turn (x < 0) comes back off by pi and to_Matrix of the result is a different rotation"
+                         % (nm, nm), where=W)
+            elif "atan2" in kinds:
+                rep.ok(RULE, inst2)
+            else:
+                rep.na(RULE, inst2, "angle is not recovered by an arctangent form this rule knows")
     for sgn, width, _ in bands:
         rep.check(RULE, "%sgimbal band at %spi/2 has half width <= 1e-3 rad" % ("" if label.endswith("from_Matrix") else label + ": ", "+" if sgn > 0 else "-"), 0 < width <= 1e-3 * (1 + 1e-9),
                   "the degenerate (roll := 0) branch is taken within %.4g rad of the pole, the documented band is 1e-3 rad: conversions are wrong for pitch in between" % width, where=W,
@@ -517,6 +553,7 @@ def run(w, rep, tier):
     rep.rule("C07.euler", "Euler from_Matrix: asin in the pitch slot on every branch; both gimbal poles tested with a band of half width <= 1e-3 rad (test on the angle or on its sine); exact poles reproduce the matrix")
     rep.rule("C07.flow", "conversions defined by composition are routed through the stated intermediate representation")
     check_pairs(w, rep, tier)
+    check_space_fixed(w, rep, tier)
     check_from_matrix(w, rep)
     check_siblings_and_validity(w, rep)
     check_poles(w, rep)
